@@ -1,6 +1,7 @@
 package props
 
 import (
+	"sort"
 	"fmt"
 	"go/constant"
 	"go/types"
@@ -400,6 +401,35 @@ func runC08(c *eng.Ctx) {
 				c.Check(ok, "ready-after-stream", in, f, "Connect marks ready only after the stream was created", why)
 			}
 		}
+		// a re-synchronisation never re-uses the stream of the failed period: the handshake drops it before it can report ready
+		// (the follower binds its partition once per stream; a stream that survived a rejection would be rejected forever)
+		ir := c.Fn(rrT + ".IsReady")
+		cs := c.Some(ir, eng.CallTo(rrT+".closeStream"), "r.closeStream()")
+		nReady := 0
+		var readyStores []ssa.Instruction
+		for in, v := range stateStores(c, ir) {
+			if v == ready {
+				readyStores = append(readyStores, in)
+			}
+		}
+		sort.Slice(readyStores, func(i, j int) bool { return readyStores[i].Pos() < readyStores[j].Pos() })
+		for _, in := range readyStores {
+			{
+				nReady++
+				c.Check(eng.DominatedBy(ir, in, cs, nil), fmt.Sprintf("handshake-drops-the-old-stream[%d]", nReady), in, ir, "every path of the handshake that ends in Ready passed closeStream()", "Ready reachable without closing the previous stream")
+			}
+		}
+		c.Check(nReady >= 3, "handshake-ready-exits", nil, ir, "the handshake has its three Ready exits", fmt.Sprintf("%d", nReady))
+		csf := c.Fn(rrT + ".closeStream")
+		nilStore := false
+		for _, st := range p.Sites(csf, eng.StoreField(rrT+".replicaStream")) {
+			if v, _ := storedValue(st.Instr); v != nil && eng.IsNilConst(v) {
+				nilStore = true
+			}
+		}
+		c.Check(nilStore, "close-forgets-the-stream", nil, csf, "closeStream forgets the stream (Connect then creates a new one)", "")
+		first := c.Fn(rrT + ".Connect")
+		c.Check(len(p.Sites(first, eng.LoadField(rrT+".replicaStream"))) > 0, "connect-reuses-only-a-live-stream", nil, first, "Connect re-uses a stream only while one is remembered", "")
 		owner(c, "store of remoteReplicator.state", eng.StoreField(rrT+".state"),
 			[]string{"replica.NewRemoteReplicator", rrT + ".Connect", rrT + ".IsReady", rrT + ".Replica"}, 10)
 	})
@@ -433,6 +463,42 @@ func runC08(c *eng.Ctx) {
 				return true
 			}})
 		c.Check(len(fe) > 0 && !via, "consume-only-when-ready", cons.Instr, f, "nothing is consumed while the channel is not ready", "")
+	})
+
+	// ---- 7b. index <-> sequence conversions of the replicator are inverse to each other --------------------------------------------------
+	c.Rule("SYMMETRY", rpT+"{index = sequence + k: getter and resetter agree}", func() {
+		for _, pr := range []struct{ get, getCallee, set, setCallee string }{
+			{rpT + ".AppendIndex", "AppendedSeq", rpT + ".ResetAppendIndex", "SetAppendedSeq"},
+			{rpT + ".ReplicaIndex", "ConsumedSeq", rpT + ".ResetReplicaIndex", "SetConsumedSeq"},
+		} {
+			g := c.Fn(pr.get)
+			st := c.Fn(pr.set)
+			var kg, ks int64
+			okg, oks := false, false
+			for _, r := range eng.SuccessReturns(g) {
+				base, k := eng.SplitConstOffset(eng.RetVal(r, 0))
+				if cl, ok := base.(*ssa.Call); ok && (cl.Common().IsInvoke() && cl.Common().Method.Name() == pr.getCallee) {
+					kg, okg = k, true
+				}
+			}
+			sc := c.One(st, invokeOn("", pr.setCallee), pr.setCallee+"(idx + k)")
+			base, k := eng.SplitConstOffset(eng.CallArgs(sc.Instr.(*ssa.Call))[0])
+			if len(st.Params) > 1 && base == ssa.Value(st.Params[1]) {
+				ks, oks = k, true
+			}
+			c.Check(okg && oks, pr.get+":shape", sc.Instr, st, pr.get+" returns "+pr.getCallee+"()+k and "+pr.set+" stores idx+k'", fmt.Sprintf("getter ok=%v setter ok=%v", okg, oks))
+			c.Check(okg && oks && kg+ks == 0, pr.get+":inverse", sc.Instr, st,
+				"resetting to index i makes the getter return i again (k + k' = 0): a reset to the follower's index does not skip or repeat a position", fmt.Sprintf("getter +%d, setter %+d", kg, ks))
+		}
+		// the ack index is a sequence on both sides (no offset)
+		ag := c.Fn(rpT + ".AckIndex")
+		for i, r := range eng.SuccessReturns(ag) {
+			_, k := eng.SplitConstOffset(eng.RetVal(r, 0))
+			c.Check(k == 0, fmt.Sprintf("ack-index-is-the-acknowledged-sequence[%d]", i), r, ag, "AckIndex is the acknowledged sequence itself", fmt.Sprintf("offset %d", k))
+		}
+		as := c.Fn(rpT + ".SetAckIndex")
+		ac := c.One(as, invokeOn("", "Ack"), "ConsumerGroup.Ack(ackIdx)")
+		c.Check(len(as.Params) > 1 && eng.CallArgs(ac.Instr.(*ssa.Call))[0] == ssa.Value(as.Params[1]), "set-ack-passes-the-index", ac.Instr, as, "SetAckIndex acknowledges exactly the given sequence", "")
 	})
 
 	// ---- 8. the leader's read barrier / GC barrier is the minimum over the followers' ACKNOWLEDGED positions (shared with C06):
